@@ -21,84 +21,7 @@
 (* persist and re-creation starts fresh (C10), lower layers never change   *)
 (* (C08, by construction: only layer 1 and wo are variables).              *)
 (***************************************************************************)
-EXTENDS VfsPaths, Integers, TLC
-CONSTANT Universe
-INSTANCE VfsTree
-
-\* ---- lookups (ls: sequence of layer trees, wo: set of marked paths)
-HasIn(t, p) == t[p].k # "none"
-FirstLayer(ls, p) == LET S == {i \in DOMAIN ls : HasIn(ls[i], p)} IN IF S = {} THEN 0 ELSE CHOOSE i \in S : \A j \in S : i <= j
-Lookup(ls, wo, p) ==
-  IF p \in wo /\ ~HasIn(ls[1], p) THEN Absent
-  ELSE LET i == FirstLayer(ls, p) IN IF i = 0 THEN Absent ELSE ls[i][p]
-StrictAncestors(p) == {SubSeq(p, 1, i) : i \in 1..(Len(p) - 1)}
-ReadPath(ls, wo, p) ==
-  IF p = Root THEN Dir
-  ELSE IF \E a \in StrictAncestors(p) : Lookup(ls, wo, a).k # "dir" THEN Absent
-  ELSE Lookup(ls, wo, p)
-\* the tree a user of the overlay sees
-View(ls, wo) == [p \in Universe |-> ReadPath(ls, wo, p)]
-IsDirIn(t, p) == IF p = Root THEN TRUE ELSE t[p].k = "dir"
-ListedKids(ls, wo, p) ==
-  {q \in Universe : Parent(q) = p /\ (\E i \in DOMAIN ls : IsDirIn(ls[i], p) /\ HasIn(ls[i], q)) /\ ~(q \in wo /\ ~HasIn(ls[1], q))}
-
-\* ---- results
-Res(c, up, wo) == [c |-> c, up |-> up, wo |-> wo]
-\* the write layer is driven through ITS path API: Level-A operators on the tree of layer 1
-UpperCreateDirAll(up, p) ==       \* create_dir_all of the chain p (p may be the root: nothing to do)
-  IF p = Root THEN [ok |-> TRUE, t |-> up]
-  ELSE LET r == CreateDirAll(up, p) IN [ok |-> "ok" \in r.allowed, t |-> r.t]
-EnsureParent(ls, wo, p) ==        \* OverlayFS::ensure_has_parent
-  IF ReadPath(ls, wo, Parent(p)).k = "none" THEN [ok |-> FALSE, t |-> ls[1]]
-  ELSE UpperCreateDirAll(ls[1], Parent(p))
-GetParentOK(ls, wo, p) == ReadPath(ls, wo, Parent(p)).k = "dir"        \* VfsPath::get_parent through the overlay
-
-OCreateDir(ls, wo, p) ==
-  IF ~GetParentOK(ls, wo, p) THEN Res("err", ls[1], wo)
-  ELSE LET e == EnsureParent(ls, wo, p) IN
-       IF ~e.ok THEN Res("err", e.t, wo)
-       ELSE LET ls2 == [ls EXCEPT ![1] = e.t]
-                cur == ReadPath(ls2, wo, p) IN
-            IF cur.k = "dir" THEN Res("dir_exists", e.t, wo)
-            ELSE IF cur.k = "file" THEN Res("file_exists", e.t, wo)
-            ELSE LET wo2 == IF p \in wo
-                            THEN wo \cup {q \in Universe : Parent(q) = p /\ \E i \in DOMAIN ls : i > 1 /\ IsDirIn(ls[i], p) /\ HasIn(ls[i], q)}
-                            ELSE wo
-                     r == CreateDir(e.t, p) IN          \* write_path.create_dir()
-                 IF "ok" \in r.allowed THEN Res("ok", r.t, wo2 \ {p}) ELSE Res("err", e.t, wo2)
-
-OCreateFile(ls, wo, p, c) ==
-  IF ~GetParentOK(ls, wo, p) THEN Res("err", ls[1], wo)
-  ELSE LET e == EnsureParent(ls, wo, p) IN
-       IF ~e.ok THEN Res("err", e.t, wo)
-       ELSE LET ls2 == [ls EXCEPT ![1] = e.t] IN
-            IF ReadPath(ls2, wo, p).k = "dir" THEN Res("err", e.t, wo)
-            ELSE LET r == CreateFile(e.t, p, c) IN
-                 IF "ok" \in r.allowed THEN Res("ok", r.t, wo \ {p}) ELSE Res("err", e.t, wo)
-
-OAppendFile(ls, wo, p, c) ==
-  IF HasIn(ls[1], p)
-  THEN LET r == AppendFile(ls[1], p, c) IN IF "ok" \in r.allowed THEN Res("ok", r.t, wo) ELSE Res("err", ls[1], wo)
-  ELSE LET src == ReadPath(ls, wo, p) IN
-       IF src.k = "none" THEN Res("notfound", ls[1], wo)
-       ELSE LET e == EnsureParent(ls, wo, p) IN
-            IF ~e.ok THEN Res("err", e.t, wo)
-            ELSE IF src.k # "file" THEN Res("err", e.t, wo)               \* copy_file of a directory fails
-            ELSE Res("ok", [e.t EXCEPT ![p] = File(src.d \o c)], wo)       \* copy-up, then append in the write layer
-
-ORemoveFile(ls, wo, p) ==
-  IF ReadPath(ls, wo, p).k = "none" THEN Res("notfound", ls[1], wo)
-  ELSE IF HasIn(ls[1], p)
-       THEN LET r == RemoveFile(ls[1], p) IN IF "ok" \in r.allowed THEN Res("ok", r.t, wo \cup {p}) ELSE Res("err", ls[1], wo)
-       ELSE Res("ok", ls[1], wo \cup {p})                                  \* KNOWN FINDING: no type check for lower-only entries
-
-ORemoveDir(ls, wo, p) ==
-  LET cur == ReadPath(ls, wo, p) IN
-  IF cur.k = "none" THEN Res("notfound", ls[1], wo)
-  ELSE IF cur.k # "dir" \/ ListedKids(ls, wo, p) # {} THEN Res("err", ls[1], wo)
-  ELSE IF HasIn(ls[1], p)
-       THEN LET r == RemoveDir(ls[1], p) IN IF "ok" \in r.allowed THEN Res("ok", r.t, wo \cup {p}) ELSE Res("err", ls[1], wo)
-       ELSE Res("ok", ls[1], wo \cup {p})
+EXTENDS OverlayOps
 
 \* VfsPath::create_dir_all over the overlay: fs.create_dir per prefix (no get_parent), DirectoryExists ignored
 RECURSIVE OCreateDirAllFrom(_, _, _, _)
